@@ -1,12 +1,13 @@
 package main
 
 import (
-	"sort"
 	"fmt"
 	"go/ast"
 	"go/constant"
 	"go/token"
 	"go/types"
+	"hash/fnv"
+	"sort"
 	"strconv"
 	"strings"
 )
@@ -580,7 +581,11 @@ func (u *Unit) fieldRead(st *State, owner types.Type, f *types.Var, ref Term) Va
 		u.decls.declFun("owner", []string{SInt}, SInt)
 		sub := tApp(fn, ref)
 		// embedded objects live in the negative reference space and know their owner
-		u.assumeOnce(st, tAnd(tLt(sub, "0"), tEq(tApp("owner", sub), ref)))
+		// ... and which field they are: two embedded objects of one owner are different objects
+		u.decls.declFun("subslot", []string{SInt}, SInt)
+		hh := fnv.New32a()
+		hh.Write([]byte(fn))
+		u.assumeOnce(st, tAnd(tLt(sub, "0"), tEq(tApp("owner", sub), ref), tEq(tApp("subslot", sub), fmt.Sprint(hh.Sum32()))))
 		return scalar(sub, SInt, ft)
 	}
 	return u.loadAt(st, fieldHeap(owner, f.Name()), ft, ref)
@@ -820,6 +825,16 @@ func (u *Unit) specCall(env *specEnv, x *ast.CallExpr) Val {
 		fn := smtName("implements$iface{" + strings.Join(ms, ",") + "}")
 		u.decls.declFun(fn, []string{SInt}, SBool)
 		return boolVal(tAnd(tNot(tEq(v.S, "0")), tApp(fn, tApp("dyntype", v.S))))
+	case "aval":
+		// aval(x.f): the current value of the sync/atomic field x.f
+		v := u.specEval(env, x.Args[0])
+		heap := atomicHeapOf(v.T)
+		sort := SInt
+		var T types.Type = types.Typ[types.Int64]
+		if heap == "ATOM$bool" {
+			sort, T = SBool, types.Typ[types.Bool]
+		}
+		return scalar(tSel(u.heapTerm(env.st, heap, sArr(SInt, sort)), v.S), sort, T)
 	case "won":
 		// won(x.f): this goroutine has won a CompareAndSwap transition on the state word x.f during this call
 		v := u.specEval(env, x.Args[0])
